@@ -12,6 +12,11 @@ checks={
  "C09":("exploration","split/route/merge/broadcast/zip combinations compared per probe and per sink with the reference","zip only on sequential inputs (positional semantics)",PBT+"; differential against the reference interpreter"),
  "C10":("exploration","loop jobs: every element at every body probe is checked against the state the sequential loop defines for its round; rounds, final state and outputs equal the reference","the stale/premature read race is only reachable through sampled schedules and delay injection",PBT+"; round/state alignment invariant + differential against a sequential loop"),
  "C11":("exploration","loop jobs with side inputs: per round the body sees the complete side input, the job terminates, one Terminate per replica","schedules sampled",PBT+"; per-round differential against the reference interpreter"),
+
+ "C12":("exploration","CountWindowManager driven call by call through the public window API against the literal sliding-group model, plus end-to-end count-window jobs with every aggregator compared with the reference","per-key arrival order of the end-to-end jobs is the source order (single producer)","property-based testing: generated operation histories against a reference model (stateful/model-based), plus differential jobs"),
+ "C13":("exploration","EventTimeWindowManager and TransactionWindowManager driven through the public window API exactly as the keyed window operator does, judged by validity predicates (assignment interval, coverage 1..ceil(size/slide), firing time) / a literal transaction model","single-threaded direct drive; several upstream replicas are covered by C06's jobs","property-based testing: generated timestamp/watermark histories against validity predicates and a reference model"),
+ "C15":("exploration","range splitting of all ten integer types checked as a partition on bounds only; generated text/CSV files read through real jobs on 1..24 replicas and multi-host layouts compared with a sequential split; sequential sources compared in order","CSV records do not contain the terminator inside quotes","property-based testing: partition predicate over generated ranges; differential against a sequential reader"),
+ "C19":("exploration","execution graph and address map dumped per host id (hook H2) for random job structures x host layouts; equality across hosts and a placement/link/address model","forward/all-to-all kind and declared replication are read from the dump","property-based testing over generated (job structure, layout) pairs against a placement/link/address model and cross-host equality"),
 }
 all_ids=[f"C{n:02d}" for n in range(1,21)]
 m={
